@@ -69,11 +69,69 @@ PropsOK(P, Q) ==
   /\ (Ev.o = "get" => ReplyExact(D, P, Q, Ev.t, Ev.n))                        \* C07
   /\ (Ev.o \in {"assign", "setvalue"} /\ NoReadOn(Ev.v) => WriteContract(D, P, Q, Ev.v, Ev.e, Ev.x, Ev.o = "setvalue"))   \* C14
 DebugOn == "VERIF_DEBUG" \in DOMAIN IOEnv
-Step == /\ l <= Len(Tr.ev) /\ l' = l + 1 /\ UNCHANGED tid
+(* ---- contract mode (Which = "contract"): the declarative properties evaluated on OBSERVED pre- and post-states only,
+   without the operational model.  Used as the verdict of last resort for a trace the model cannot explain step by step:
+   only what the properties state is demanded (no order among handlers of one event, no order between publication and
+   handlers, no particular number of Read events, coroutine handlers only counted). *)
+ObsState(o, tasksLen) ==
+  [val |-> o.val, vst |-> o.vst, ven |-> o.ven, gen |-> [g \in DOMAIN D.grps |-> TRUE],
+   tasks |-> [i \in 1..tasksLen |-> [h |-> 0, req |-> None, old |-> None, new |-> None]],
+   pub |-> Canon(o.pub), hlog |-> CanonH(o.hlog), raised |-> o.raised]
+InitObs == [val |-> D.val0, vst |-> D.vst0, ven |-> [v \in DOMAIN D.vecs |-> D.ven0[v] /\ D.gen0[D.vecs[v].grp]], ntasks |-> 0,
+            raised |-> FALSE, pub |-> <<>>, hlog |-> <<>>]
+PrevObs == IF l = 1 THEN InitObs ELSE Tr.ev[l - 1].obs
+PO == ObsState(PrevObs, PrevObs.ntasks)
+QO == ObsState(Ev.obs, Ev.obs.ntasks)
+SameBag(a, b) == Len(a) = Len(b) /\ (\A i \in DOMAIN a : Cnt(a, a[i]) = Cnt(b, a[i])) /\ (\A j \in DOMAIN b : Cnt(a, b[j]) = Cnt(b, b[j]))
+\* C14 on observations: plain handlers as a bag, coroutine handlers counted
+WriteContractObs(v, e, x, viaWrite) ==
+  LET ws == Hs(D, v, e, "W")
+      plainW == SelectSeq(ws, LAMBDA h : ~D.hs[h].coro)
+      coroW == SelectSeq(ws, LAMBDA h : D.hs[h].coro)
+      vetoed == viaWrite /\ \E i \in DOMAIN plainW : D.hs[plainW[i]].veto
+      wlog == SelectSeq(QO.hlog, LAMBDA r : r.ev = "W")
+      clog == SelectSeq(QO.hlog, LAMBDA r : r.ev = "C" /\ D.hs[r.h].v = v /\ D.hs[r.h].e = e)
+      sets == SelectSeq(QO.pub, LAMBDA m : m.t = "set" /\ m.v = v)
+      newv == QO.val[v][e]
+      plainC == SelectSeq(Hs(D, v, e, "C"), LAMBDA h : ~D.hs[h].coro)
+      coroC == SelectSeq(Hs(D, v, e, "C"), LAMBDA h : D.hs[h].coro)
+      changed == newv # PO.val[v][e]
+      newTasks == Ev.obs.ntasks - PrevObs.ntasks
+  IN /\ (viaWrite => SameBag([i \in DOMAIN wlog |-> wlog[i].h], plainW)
+                      /\ \A i \in DOMAIN wlog : wlog[i].req = x /\ wlog[i].seen = PO.val[v][e] /\ ~wlog[i].late)
+     /\ (~viaWrite => wlog = <<>>)
+     /\ (vetoed => QO.val = PO.val /\ QO.pub = <<>> /\ clog = <<>> /\ newTasks = Len(coroW))
+     /\ ((~vetoed /\ TypeOK(D, v, x)) =>
+           /\ (PO.ven[v] => Len(sets) = 1) /\ (~PO.ven[v] => Len(sets) = 0)
+           /\ (PO.ven[v] /\ D.vecs[v].een[e] /\ ~(D.vecs[v].kind = "blob" /\ newv = None) =>
+                  \E k \in DOMAIN sets[1].els : sets[1].els[k] = <<D.vecs[v].elems[e], newv>>)
+           /\ (IF D.vecs[v].kind = "blob" /\ ~changed THEN TRUE
+               ELSE IF changed
+               THEN /\ SameBag([i \in DOMAIN clog |-> clog[i].h], plainC)
+                    /\ \A i \in DOMAIN clog : clog[i].old = PO.val[v][e] /\ clog[i].new = newv
+                    /\ newTasks = (IF viaWrite THEN Len(coroW) ELSE 0) + Len(coroC)
+               ELSE clog = <<>> /\ newTasks = (IF viaWrite THEN Len(coroW) ELSE 0)))
+ContractOK ==
+  /\ Ev.obs.wireok
+  /\ RulePreserved(D, PO, QO) /\ PubRuleOK(D, PO, QO)
+  /\ (Ev.o = "assign" => AssignOnOK(D, PO, QO, Ev.v, Ev.e, Ev.x))
+  /\ (Ev.o \in {"new", "get", "tick"} => ~QO.raised)
+  /\ (Ev.o = "new" => FrameOK(D, PO, QO, Ev.t, Ev.n))
+  /\ (Ev.o = "new" /\ Ev.t # None /\ VecOf(D, Ev.t, Ev.n) # 0 /\ KindOK(VecOf(D, Ev.t, Ev.n), Ev.ch)
+        /\ NoVetoOn(VecOf(D, Ev.t, Ev.n)) /\ NoReadOn(VecOf(D, Ev.t, Ev.n))
+      => TakenOK(D, PO, QO, VecOf(D, Ev.t, Ev.n), Ev.ch))
+  /\ (Ev.o = "get" => ReplyExact(D, PO, QO, Ev.t, Ev.n))
+  /\ (Ev.o \in {"assign", "setvalue"} /\ NoReadOn(Ev.v) => WriteContractObs(Ev.v, Ev.e, Ev.x, Ev.o = "setvalue"))
+  \* what no property allows to change silently: an operation that is not a write / toggle leaves values and states alone
+  /\ (Ev.o \in {"get", "read", "tick"} /\ (\A h \in DOMAIN D.hs : D.hs[h].refresh = NoRefresh) => QO.val = PO.val /\ QO.vst = PO.vst /\ QO.ven = PO.ven)
+
+StepModel ==
         /\ S' = Post
         /\ (DebugOn => PrintT(<<"POST", l, [val |-> Post.val, vst |-> Post.vst, ven |-> Post.ven, gen |-> Post.gen, nt |-> Len(Post.tasks), raised |-> Post.raised, pub |-> Post.pub, hlog |-> Post.hlog]>>))
         /\ ObsOK(S')
         /\ PropsOK(S, S')
+Step == /\ l <= Len(Tr.ev) /\ l' = l + 1 /\ UNCHANGED tid
+        /\ IF Which = "contract" THEN S' = S /\ ContractOK ELSE StepModel
 TraceSpec == TraceInit /\ [][Step]_<<tid, l, S>>
 Progress == TLCSet(tid, IF TLCGet(tid) > l THEN TLCGet(tid) ELSE l)
 Bad == {t \in 1..N : TLCGet(t) # Len(Traces[t].ev) + 1}
